@@ -5,6 +5,8 @@ import Pcore.Proofs.FormatCtor
 import Pcore.Proofs.FormatAlt
 import Pcore.Proofs.FormatFloat
 import Pcore.Generated.FormatLetters
+import Pcore.Proofs.FormatMerge
+import Pcore.Proofs.FormatKeyLat
 /-!
 # C20 — String formatting is total and faithful to the format directive
 
@@ -584,5 +586,71 @@ example : format io0 [(.arr, .mk { simpleFmt 'a' with ldelim := some '<', sep :=
 example : ChildrenText io0 [(.any, .mk (simpleFmt 'a') none)] defaultCF (arrayChildInd (simpleFmt 'a') Ind.default)
     [.int 1, .array [.int 2]] ["1".toList, "[2]".toList] := by
   simp only [ChildrenText]; decide +kernel
+
+/-! ### per-type format MAPS given by the user (`new(String, v, {Type => format, …})`): `newFormatContext3` →
+    `mergeFormats(DefaultFormats, NewFormatMap(h))`, types/format.go after fix 77ca16d
+
+The merged map is a list that `px.GetFormat` searches for the FIRST entry whose key type accepts the value.  Proved, for every
+user map (any number of entries, any nesting — the theorems are about `sortEntries` / `mergedEntries`, which `mergeMaps`
+applies at every level):
+
+* `C20_map_most_specific` — the format applied to a value is the entry of the MOST SPECIFIC key type that accepts it (whatever
+  other entries the map holds, in whatever order the user wrote them);
+* `C20_map_exact_key` — in particular the user's entry for the exact type of a scalar / Array / Hash is the one applied;
+* `C20_map_merge_refines` — an entry whose key the defaults map too refines the default: the user's directive, and — where the
+  user gives no `string_formats` — the default's container formats (element formats are INHERITED, not replaced);
+* `C20_map_keys_are_lattice` — the relation the merge orders and rejects by is the assignability of the lattice model (C01–C04)
+  on the default types.
+
+These were FALSE of the original code: its `sort.Slice` comparison (assignability, then rank, then name) is not transitive
+(Integer < Scalar < Array < Integer), so `{Scalar => '%s', Float => '%-5e'}` formatted a Float with the Scalar entry and an entry
+for an unrelated type changed which format applied — found by the direct predicates `exact-key-ignored` /
+`irrelevant-entry-matters` on the implementation, repaired in /repo (77ca16d), witnesses in corpus/C20. -/
+
+/-- the most specific accepting key wins: `m` = the merged entries before the sort (pairwise different keys), `K` the least key of
+    `m` (by assignability) among those that accept the kind -/
+theorem C20_map_most_specific (m : List (Key × FTree)) (hn : (m.map (·.1)).Nodup) (K : Key) (t : FTree) (k : Kind)
+    (hm : (K, t) ∈ m) (hacc : K.accepts k = true)
+    (hleast : ∀ e ∈ m, e.1.accepts k = true → Key.sub e.1 K = true) :
+    getFormat (sortEntries m) k = t :=
+  getFormat_sortEntries_least m hn K t k hm hacc hleast
+
+/-- … instantiated on what `mergeFormats` builds from the defaults `lo` and the user's map `hi`: no hypothesis on the maps -/
+theorem C20_map_exact_key (mt : FTree → FTree → FTree) (lo hi : List (Key × FTree)) (k : Kind) (t : FTree)
+    (hm : (k.key, t) ∈ mergedEntries mt lo hi) :
+    getFormat (sortEntries (mergedEntries mt lo hi)) k = t :=
+  getFormat_sortEntries_exact _ (mergedEntries_keys_nodup mt lo hi) k t hm
+
+/-- a user entry for a key the defaults map too (and that no other user key accepts) REFINES the default entry: the entry of
+    the merged map is `merge(default, user)` — the user's letter; with no `string_formats` of the user's, the default's
+    container formats -/
+theorem C20_map_merge_refines (fuel : Nat) (lo hi : List (Key × FTree)) (K : Key) (l h : FTree)
+    (hl : lookupKey lo K = some l) (hh : lookupKey hi K = some h)
+    (hno : ∀ K' ∈ hi.map (·.1), K' ≠ K → Key.sub K' K = false) :
+    (K, mergeTree (fuel + 1) l h) ∈ sortEntries (mergedEntries (mergeTree (fuel + 1)) lo hi) ∧
+    (mergeTree (fuel + 1) l h).f.letter = h.f.letter ∧
+    (mergeTree (fuel + 1) l h).cf = mergeMaps fuel l.cf h.cf ∧
+    (∀ x xs n, fuel = n + 1 → l.cf = some (x :: xs) → h.cf = none → (mergeTree (fuel + 1) l h).cf = some (x :: xs)) := by
+  refine ⟨(sortEntries_mem _ _).2 (mergedEntries_both _ lo hi K l h hl hh hno), mergeTree_letter _ l h, mergeTree_cf fuel l h, ?_⟩
+  intro x xs n hf hlc hhc
+  rw [mergeTree_cf, hf, hlc, hhc, mergeMaps_nil_right]
+
+/-- the relation on key types is the lattice's assignability on the default types (every matcher, both settings of the rule) -/
+theorem C20_map_keys_are_lattice (cfg : Pcore.Lat.Cfg) (sfh : Bool) (a b : Key) :
+    Key.sub a b = Pcore.Lat.asg cfg sfh a.toTy b.toTy := Key.sub_eq_asg cfg sfh a b
+
+/-- non-vacuity and the witnesses of the repaired defect: `{Scalar => '% s', Float => '%-5d'}` — the Float entry is the one
+    applied to a Float, the Scalar entry to a String; an Integer under `{Float, Scalar, Integer}` gets the Integer entry with and
+    without the unrelated Float entry -/
+example : (getFormat (contextMap [(.scalar, .mk (simpleFmt 's') none), (.float, .mk (simpleFmt 'd') none)]) .float).f.letter = 'd' ∧
+    (getFormat (contextMap [(.scalar, .mk (simpleFmt 's') none), (.float, .mk (simpleFmt 'd') none)]) .str).f.letter = 's' := by
+  decide +kernel
+example : (getFormat (contextMap [(.float, .mk (simpleFmt 'e') none), (.scalar, .mk (simpleFmt 's') none), (.int, .mk (simpleFmt 'x') none)]) .int).f.letter = 'x' ∧
+    (getFormat (contextMap [(.scalar, .mk (simpleFmt 's') none), (.int, .mk (simpleFmt 'x') none)]) .int).f.letter = 'x' := by
+  decide +kernel
+/-- non-vacuity of `C20_map_merge_refines`: the user's `Array => '%a'` with `string_formats {Integer => '%x'}` keeps the default
+    element formats beside its own: strings stay quoted (`%p`), integers are hexadecimal -/
+example : format io0 (contextMap [(.arr, .mk (simpleFmt 'a') (some [(.int, .mk (simpleFmt 'x') none)]))])
+    (.array [.str ['a'], .int 255]) = .text "['a', ff]".toList := by decide +kernel
 
 end Pcore.Format
